@@ -24,6 +24,7 @@ class G:
         self.sched = []
         self.live = {0: [], 1: []}      # files owned (created and not deleted) by the user of that side: rel paths
         self.dirs = {0: [""], 1: [""]}  # folders that side's user may create files in ('' = the root)
+        self.used_empty = False
 
     def fresh(self, ext=True):
         self.counter += 1
@@ -34,7 +35,8 @@ class G:
         self.counter += 1
         n = self.rng.choice([0, 3, 8, 40, 1500]) if self.rng.random() < 0.3 else 6
         body = ("c%d-" % self.counter).encode()
-        if n == 0 and self.rng.random() < 0.5:
+        if n == 0 and not self.used_empty and self.rng.random() < 0.5:
+            self.used_empty = True          # the empty content once per case: a written content is new for its file
             return b""
         return (body * (n // len(body) + 1))[:max(n, len(body))]
 
